@@ -236,6 +236,11 @@ PROGRAMS = [
     ("env-inside-module", "let m = module {} => { let r = env.A; };\nout json {v = m{}.r};\n", "setA"),
     ("env-in-select", "out json {v = select (env.A, \"d\") => {setA = \"hit\"}};\n", "hit"),
     ("whole-env-not-shadowed-by-field", "let t = {env = {A = \"no\"}};\nout json {v = env.A};\n", "setA"),
+    # env is a tuple like any other: copied, handed on, compared — after some of its fields were read
+    ("copy-of-env-after-a-read", "let a = env.A;\nlet e = env{X = \"1\"};\nlet b = e.HOME;\nout json {v = select (b == env.HOME, \"differs\") => {true = a + e.X}};\n", "setA1"),
+    ("copy-of-env-before-any-read", "let e = env{X = \"1\"};\nout json {v = e.A + e.X};\n", "setA1"),
+    ("env-handed-to-a-function-after-a-read", "let a = env.A;\nlet f = func (t) => t.HOME;\nout json {v = select (f(env) == env.HOME, \"differs\") => {true = a}};\n", "setA"),
+    ("env-in-a-tuple-after-a-read", "let a = env.A;\nlet t = {e = env};\nout json {v = select (t.e.HOME == env.HOME, \"differs\") => {true = a}};\n", "setA"),
     # every other construct that binds a name
     ("function-parameter-env", "let f = func (env) => env.A;\nout json {v = f({A = \"shadow\"})};\n", "error"),
     ("second-function-parameter-env", "let f = func (n, env) => env.A;\nout json {v = f(1, {A = \"shadow\"})};\n", "error"),
